@@ -248,3 +248,80 @@ pub open spec fn stbm_bottom(s: Screen, bottom: Option<u32>) -> int { stbm_row(b
 pub open spec fn stbm_accepts(s: Screen, top: Option<u32>, bottom: Option<u32>) -> bool {
     !stbm_clears(top, bottom) && stbm_bottom(s, bottom) - stbm_top(s, top) >= 1
 }
+
+// ---- TRUSTED shims for iterator-adapter expressions (DESIGN 3.3); each body is the original expression ----
+#[verifier::external_body]
+pub fn vec_from_slice(s: &[u32]) -> (r: Vec<u32>)
+    ensures r@ == s@,
+{
+    Vec::from(s)
+}
+
+/// `S.iter().map(F).collect::<Vec<_>>()` with the closure passed through: F itself stays in verified text
+#[verifier::external_body]
+pub fn slice_map_collect<F: Fn(&u32) -> u32>(s: &[u32], f: F) -> (r: Vec<u32>)
+    requires
+        forall|i: int| 0 <= i < s@.len() ==> f.requires((&s@[i],)),
+    ensures
+        r@.len() == s@.len(),
+        forall|i: int| 0 <= i < s@.len() ==> f.ensures((&s@[i],), #[trigger] r@[i]),
+{
+    s.iter().map(f).collect::<Vec<_>>()
+}
+
+/// `V.iter().any(|m| *m == K)`
+#[verifier::external_body]
+pub fn vec_any_eq(v: &Vec<u32>, k: u32) -> (r: bool)
+    ensures r == v@.contains(k),
+{
+    v.iter().any(|m| *m == k)
+}
+
+/// `S.extend(V.iter())` on HashSet<u32>
+#[verifier::external_body]
+pub fn hs_extend_vec(s: &mut HashSet<u32>, v: &Vec<u32>)
+    ensures forall|x: u32| #![trigger final(s)@.contains(x)] final(s)@.contains(x) == (old(s)@.contains(x) || v@.contains(x)),
+{
+    s.extend(v.iter())
+}
+
+/// `S.iter().filter(|&&x| !V.iter().any(|&y| x == y)).cloned().collect()` on HashSet<u32>
+#[verifier::external_body]
+pub fn hs_minus_vec(s: &HashSet<u32>, v: &Vec<u32>) -> (r: HashSet<u32>)
+    ensures forall|x: u32| #![trigger r@.contains(x)] r@.contains(x) == (s@.contains(x) && !v@.contains(x)),
+{
+    s.iter().filter(|&&x| !v.iter().any(|&y| x == y)).cloned().collect()
+}
+
+/// `for line in B.values_mut() { for x in line.iter_mut() { x.1.reverse = R; } }`
+#[verifier::external_body]
+pub fn buffer_set_reverse(b: &mut HashMap<u32, HashMap<u32, CharOpts>>, rev: bool)
+    ensures
+        forall|y: u32| #![trigger final(b)@.contains_key(y)] final(b)@.contains_key(y) == old(b)@.contains_key(y),
+        forall|y: u32, x: u32| #![trigger final(b)@[y]@.contains_key(x)] old(b)@.contains_key(y) ==> (final(b)@[y]@.contains_key(x) == old(b)@[y]@.contains_key(x)),
+        forall|y: u32, x: u32| #![trigger final(b)@[y]@[x]] old(b)@.contains_key(y) && old(b)@[y]@.contains_key(x) ==>
+            cv(final(b)@[y]@[x]) == (Cell { reverse: rev, ..cv(old(b)@[y]@[x]) }),
+{
+    for line in b.values_mut() {
+        for x in line.iter_mut() {
+            x.1.reverse = rev;
+        }
+    }
+}
+
+/// `for line in B.values_mut() { for x in LO..HI { line.remove(&x); } }`
+#[verifier::external_body]
+pub fn buffer_remove_columns(b: &mut HashMap<u32, HashMap<u32, CharOpts>>, lo: u32, hi: u32)
+    ensures
+        forall|y: u32| #![trigger final(b)@.contains_key(y)] final(b)@.contains_key(y) == old(b)@.contains_key(y),
+        forall|y: u32, x: u32| #![trigger final(b)@[y]@.contains_key(x)] old(b)@.contains_key(y) ==>
+            (final(b)@[y]@.contains_key(x) == (old(b)@[y]@.contains_key(x) && !(lo <= x && x < hi))),
+        forall|y: u32, x: u32| #![trigger final(b)@[y]@[x]] old(b)@.contains_key(y) && old(b)@[y]@.contains_key(x) && !(lo <= x && x < hi) ==>
+            final(b)@[y]@[x] == old(b)@[y]@[x],
+{
+    for line in b.values_mut() {
+        for x in lo..hi {
+            line.remove(&x);
+        }
+    }
+}
